@@ -356,10 +356,59 @@ func propLongSymbols(c *Ctx) {
 	}
 }
 
+// cfgKind: the tokenizer kind string (see newTokenizer) of a configured tokenizer
+func cfgKind(base string, ops []cfgOp) string {
+	if len(ops) == 0 {
+		return base
+	}
+	ss := make([]string, len(ops))
+	for i, o := range ops {
+		ss[i] = o.String()
+	}
+	return "K" + base + "|" + strings.Join(ss, "~")
+}
+
+// configured tokenizers in the streams of C04 / C12 / C15: the property's own runner and oracle on a random user configuration
+func propCfgKinds(c *Ctx, n int, run func(kind string, input []rune)) {
+	for i := 0; i < n; i++ {
+		base := []string{"g", "e"}[c.Rng.Intn(2)]
+		var ops []cfgOp
+		for _, o := range randCfgOps(c, 1+c.Rng.Intn(4)) {
+			// handing the expression tokenizer's C comment state anything but '/' is the one configuration the
+			// library rejects by an explicit panic (Cfg.misuse in the model): outside these properties' precondition
+			if !(base == "e" && o.k == "D" && o.x == "c") {
+				ops = append(ops, o)
+			}
+		}
+		run(cfgKind(base, ops), cfgInput(c, base, ops))
+	}
+	c.Notes = append(c.Notes, fmt.Sprintf("%d tokenizers re-configured by the user (SetCharacterState / SetWordChars / SetWhitespaceChars / SymbolState.Add histories of 1-4 operations)", n))
+}
+
 func replayTokC(c *Ctx, op string) bool {
 	f := strings.Fields(op)
 	if len(f) != 5 || f[0] != "tokc" {
 		return false
+	}
+	if c.Prop == "C04" || c.Prop == "C12" || c.Prop == "C15" {
+		kind := "K" + f[1] + "|"
+		if f[3] != "-" {
+			kind += f[3]
+		}
+		o, _ := strconv.Atoi(f[2])
+		switch c.Prop {
+		case "C04":
+			if o == 0 {
+				runC04Case(c, kind, parseRunes(f[4]))
+				return true
+			}
+		case "C12":
+			runC12Case(c, kind, []int{o}, parseRunes(f[4]))
+			return true
+		case "C15":
+			runC15Case(c, kind, []int{o}, parseRunes(f[4]))
+			return true
+		}
 	}
 	opts, _ := strconv.Atoi(f[2])
 	var ops []cfgOp
